@@ -12,7 +12,7 @@ def run(rep, tier, seed):
     rep.assumptions += [
         "routing: update_args stores a child's text (or converted sub-aggregate) under its own lower-cased tag / appends list members in order (L1, symbolic child); __init__ stores conv(attr, value) in attribute attr and nothing else (per class, all presence patterns)",
         "type rules: conv(attr, text) is the declared converter's convert, whose agreement with the independent OFX type rules is the C10/C09 contracts (Y/N, integers, decimals incl. ',' , entity decoding, enumeration tokens, date-time/time to UTC)",
-        "the parser hands trimmed, non-empty element data (C02) - not re-proved here",
+        "the parser hands over element data trimmed at both ends and otherwise untouched: the _groomstring contract (opaque text) is discharged here too; that a whole document's values arrive is exercised by the bounded write-parse-convert run (values with interior whitespace runs, markup characters, non-ASCII)",
     ]
     run_contracts(rep, "contracts.aggregate", tier, seed)
     run_contracts(rep, "contracts.aggregate_native", tier, seed)      # bounded companions on real classes / trees
@@ -20,4 +20,7 @@ def run(rep, tier, seed):
         run_contracts(rep, m, tier, seed, select=lambda c: "convert" in c.target and "unconvert" not in c.target, accept_props=["C10"])
     run_contracts(rep, "contracts.types_dt", tier, seed, select=lambda c: "convert" in c.target and "unconvert" not in c.target and c.tier != "thorough", accept_props=["C09"])
     run_class_init(rep, tier, seed)
+    # from the wire: what the parser does to element data before the converters see it, and whole documents end to end
+    run_contracts(rep, "contracts.parser", tier, seed, select=lambda c: c.target.endswith("._groomstring"), accept_props=["C02"])
+    run_contracts(rep, "contracts.roundtrip_native", tier, seed, select=lambda c: c.target.endswith("OFXClient.serialize"), accept_props=["C01"])
     replay_known_findings(rep)
